@@ -60,3 +60,92 @@ def forced(atom, conds):
     if True in res and False in res:
         return None
     return res[0] if res else None
+
+
+# ------------------------------------------------------------------ START CLOCKTIME writer / reader (shared by C12 and C03)
+def clocktime_round_trip(repo):
+    """finite evaluation of the START CLOCKTIME writer (12-hour conversion in InpFile._write_times) composed with the reader
+    (_clock_time_to_sec): -> (list of (seconds, text written, seconds read back or error text), writer_fn, reader_fn).
+    Both sides are evaluated by the partial evaluator on their AST (stdlib `re` is modelled; no repository code runs)."""
+    import ast
+    import re as _re
+    from ..src import unparse, ExtractError, walk
+    from ..peval import Evaluator, Obj, Unknown, Raised
+
+    IO = "wntr/epanet/io.py"
+    wt = repo.func(IO, "InpFile._write_times")
+    rd = repo.func(IO, "_clock_time_to_sec")
+    s2s = repo.func(IO, "_sec_to_string")
+    # writer: statements from `hrs, mm, sec = _sec_to_string(time.start_clocktime)` to the write of 'START CLOCKTIME'
+    start = end = None
+    for i, st in enumerate(wt.body):
+        if isinstance(st, ast.Assign) and "start_clocktime" in unparse(st.value) and "_sec_to_string" in unparse(st.value):
+            start = i
+        if start is not None and end is None and isinstance(st, ast.Expr) and "START CLOCKTIME" in unparse(st):
+            end = i
+    if start is None or end is None:
+        raise ExtractError("_write_times: START CLOCKTIME writer not found")
+    fmt_call = None
+    for n in ast.walk(wt.body[end]):
+        if isinstance(n, ast.Call) and isinstance(n.func, ast.Attribute) and n.func.attr == "format" and isinstance(n.func.value, ast.Constant) and "START CLOCKTIME" in unparse(n):
+            fmt_call = n
+    if fmt_call is None:
+        raise ExtractError("_write_times: format of the START CLOCKTIME line not found")
+
+    class Ev(Evaluator):
+        def e_Subscript(self, n):
+            b = self.ev(n.value)
+            i = self.ev(n.slice)
+            return b[i]
+
+        def e_JoinedStr(self, n):
+            raise Unknown("f-string")
+
+    def hook(name, n, ev):
+        if name == "int":
+            v = ev.ev(n.args[0])
+            return int(v)
+        if name == "float":
+            return float(ev.ev(n.args[0]))
+        if name == "round":
+            return round(ev.ev(n.args[0]))
+        if name == "bool":
+            return ev.ev(n.args[0]) is not None and ev.ev(n.args[0]) is not False
+        if name == "re.compile":
+            return Obj("pattern", {"re": _re.compile(ev.ev(n.args[0]))})
+        if name.endswith(".search") or name == "?.search":
+            pat = ev.ev(n.func.value)
+            m = pat.attrs["re"].search(ev.ev(n.args[0]))
+            return None if m is None else Obj("match", {"groups": m.groups()})
+        if name.endswith(".groups") or name == "?.groups":
+            return list(ev.ev(n.func.value).attrs["groups"])
+        if name.endswith(".upper"):
+            return ev.ev(n.func.value).upper()
+        if name.endswith(".startswith"):
+            return ev.ev(n.func.value).startswith(ev.ev(n.args[0]))
+        if name == "_sec_to_string":
+            sub = Ev({"sec": ev.ev(n.args[0])}, None, hook)
+            return sub.run(s2s.body)
+        return NotImplemented
+
+    rows = []
+    for h in range(24):
+        for m_, s_ in ((0, 0), (30, 0), (59, 59)):
+            t = h * 3600 + m_ * 60 + s_
+            try:
+                w = Ev({"time": Obj("time", {"start_clocktime": t})}, None, hook)
+                w.block(wt.body[start:end])
+                args = [w.ev(a) for a in fmt_call.args]
+                text = fmt_call.func.value.value.format(*args).strip()
+                toks = text.split()
+                # reader side: current = line.split(); time = current[2]; am/pm = current[3] (or 'AM')
+                clock, ampm = toks[2], (toks[3].upper() if len(toks) > 3 else "AM")
+                r = Ev({"s": clock, "am_pm": ampm}, None, hook)
+                try:
+                    back = r.run(rd.body)
+                except Raised:
+                    back = "raises"
+                rows.append((t, text, back))
+            except Unknown as e:
+                raise ExtractError("START CLOCKTIME round trip not evaluable at %d s: %s" % (t, e))
+    return rows, wt, rd
